@@ -21,16 +21,16 @@ Notation Wni := (walk_ni tb cs c is_email A Hre Hempty Hstr Hnum Hbool).
 Lemma zone_value_csim ins k v v' : cs2 v v' -> zone_value ins k v = zone_value ins k v'.
 Proof. intros H. pose proof (csim_kind _ _ _ _ _ H). destruct v, v'; try contradiction; reflexivity. Qed.
 
-Lemma cmd_member_ni ins k v v' :
+Lemma cmd_member_ni rfn ins k v v' :
   zone_value ins k v = true -> cs2 v v' ->
-  cmd_member tb cs c A false ins k v = cmd_member tb cs c A false ins k v'.
+  cmd_member tb cs c A rfn ins k v = cmd_member tb cs c A rfn ins k v'.
 Proof.
   intros Hz H. pose proof (csim_kind _ _ _ _ _ H) as Hk.
-  assert (Hq : forall l l', v = JObj l -> v' = JObj l' -> q_obj tb cs c A false v = q_obj tb cs c A false v').
+  assert (Hq : forall l l', v = JObj l -> v' = JObj l' -> q_obj tb cs c A rfn v = q_obj tb cs c A rfn v').
   { intros l l' -> ->. unfold q_obj, W. apply Wni; simpl; auto. }
-  assert (Ha : forall l l', v = JArr l -> v' = JArr l' -> a_arr tb cs c A false v = a_arr tb cs c A false v').
+  assert (Ha : forall l l', v = JArr l -> v' = JArr l' -> a_arr tb cs c A rfn v = a_arr tb cs c A rfn v').
   { intros l l' -> ->. unfold a_arr, W. apply Wni; simpl; auto. now apply exempt_empty. }
-  assert (Hp : forall l l', v = JArr l -> v' = JArr l' -> pipe tb cs c A false v = pipe tb cs c A false v').
+  assert (Hp : forall l l', v = JArr l -> v' = JArr l' -> pipe tb cs c A rfn v = pipe tb cs c A rfn v').
   { intros l l' -> ->. unfold pipe, W. f_equal.
     inversion H as [t | x x' Hl | l0 l0' Hf |]; subst; [reflexivity | simpl in Hl; contradiction |].
     apply (map_Forall2 _ _ cs2); [exact Hf|]. intros x y Hx Hy Hxy.
@@ -82,15 +82,15 @@ Proof.
   simpl in *. injection E as -> E. destruct (String.eqb b k); [reflexivity | now apply IH].
 Qed.
 
-Lemma redact_command_ni cmd cmd' :
-  cmd_sim cmd cmd' -> redact_command tb cs c A false cmd = redact_command tb cs c A false cmd'.
+Lemma redact_command_ni rfn cmd cmd' :
+  cmd_sim cmd cmd' -> redact_command tb cs c A rfn cmd = redact_command tb cs c A rfn cmd'.
 Proof.
   intros H. unfold redact_command.
   assert (Hins : has_key cmd "insert" = has_key cmd' "insert") by (unfold has_key; apply oget_keys; now apply cmd_sim_keys).
   rewrite <- Hins. unfold cmd_sim in H.
   apply (map_Forall2 _ _ _ _ _ H). intros [k v] [k' v'] _ _ [Hk Hv]. simpl in *. subst k'.
   destruct Hv as [-> | [Hz Hc]]; [reflexivity|].
-  rewrite (cmd_member_ni _ k v v' Hz Hc). reflexivity.
+  rewrite (cmd_member_ni rfn _ k v v' Hz Hc). reflexivity.
 Qed.
 
 End NIL.
@@ -105,7 +105,6 @@ Hypothesis Hempty : ~ In (""%string, Exempt) (all_entries tb).
 Hypothesis Hstr : forall s s' ph, a_str A s ph = a_str A s' ph.
 Hypothesis Hnum : forall n n', a_num A n = a_num A n'.
 Hypothesis Hbool : forall b b', a_bool A b = a_bool A b'.
-Hypothesis Heager : eager c = [].
 
 Notation csm := (cmd_sim tb c).
 
@@ -128,16 +127,17 @@ Proof.
   destruct Hv as [-> | Hr]; [reflexivity | exfalso; eapply Hk; eauto].
 Qed.
 
-Lemma attr_member_ni k v v' :
+Lemma attr_member_ni rfn k v v' :
   (v = v' \/ (key_in k cmd_keys = true /\ exists cmd cmd', v = JObj cmd /\ v' = JObj cmd' /\ csm cmd cmd')) ->
-  attr_member tb cs c A true false k v = attr_member tb cs c A true false k v'.
+  attr_member tb cs c A true rfn k v = attr_member tb cs c A true rfn k v'.
 Proof.
   intros [-> | (Hk & cmd & cmd' & -> & -> & Hs)]; [reflexivity|].
-  unfold attr_member. rewrite !Bool.andb_false_r. cbn [andb].
+  unfold attr_member. cbn [andb].
+  assert (Hpl : forall x, (if rfn && String.eqb k "planSummary" then plan_value A (JObj x) else JObj x) = JObj x) by (intros; destruct (rfn && _); reflexivity).
   assert (Hip : forall x, (if ips c && String.eqb k "remote" then ip_value (JObj x) else JObj x) = JObj x) by (intros; destruct (ips c && _); reflexivity).
   rewrite !Hip. unfold cmd_keys in Hk. rewrite Hk.
   assert (Hh : forall x, (if nss c && String.eqb k "ns" then hash_str A (JObj x) else JObj x) = JObj x) by (intros; destruct (nss c && _); reflexivity).
-  cbn [andb]. unfold do_command. rewrite !Hh. f_equal. now apply redact_command_ni.
+  cbn [andb]. unfold do_command. rewrite !Hpl, !Hh. f_equal. now apply redact_command_ni.
 Qed.
 
 Theorem redact_entry_ni e e' : gate e = true -> entry_sim e e' -> redact_entry tb cs c A e = redact_entry tb cs c A e'.
@@ -152,9 +152,11 @@ Proof.
   apply (map_Forall2 _ _ _ _ _ H). intros [k v] [k' v'] _ _ [Hk Hv]. simpl in *. subst k'.
   destruct Hv as [-> | (-> & a & a' & -> & -> & Ha)]; [reflexivity|].
   cbn. f_equal. f_equal. unfold redact_attr.
-  assert (E1 : eager_on c a = false) by (unfold eager_on; now rewrite Heager).
-  assert (E2 : eager_on c a' = false) by (unfold eager_on; now rewrite Heager).
-  rewrite E1, E2. unfold attr_sim in Ha.
+  assert (E : eager_on c a = eager_on c a').
+  { unfold eager_on.
+    rewrite (oget_sim (R := fun k v v' => key_in k cmd_keys = true /\ exists cmd cmd', v = JObj cmd /\ v' = JObj cmd' /\ csm cmd cmd') a a' "ns"%string Ha) by (intros v v' [E _]; discriminate).
+    reflexivity. }
+  rewrite <- E. unfold attr_sim in Ha.
   apply (map_Forall2 _ _ _ _ _ Ha). intros [k v] [k' v'] _ _ [Hk Hv]. simpl in *. subst k'. f_equal.
   now apply attr_member_ni.
 Qed.
